@@ -2,29 +2,22 @@
 From V Require Import Index.MVMap Index.MVMapProofs Index.BTree Index.BTreeProofs Index.QueryProofs
   Index.ReaderProofs Index.TBState Index.TBStateProofs.
 
-(* when GetBetween / ReadBetween are covered: history counts fit uint64, and the key has a version
-   not newer than finalTs (or finalTs = 0, or the window is empty) *)
-Definition between_ok (n : node) (k : bytes) (i f : N) : Prop :=
-  Forall (fun lv => lv_history_count lv < 2 ^ 64) (flatten n) /\
-  (f = 0 \/ f < i \/
-   match mv_find k (abs n) with Some vs => Exists (fun x => snd x <= f) vs | None => True end).
-
-Theorem btree_refines_mvmap_partial cfg ops n :
+Theorem btree_refines_mvmap cfg ops n :
   cfg_ok cfg -> in_state n (mrun cfg ops) ->
   (* invariants: no empty node and every node within MaxNodeSize (or the empty root leaf); keys
      strictly sorted across the whole tree; entries well-formed; versions strictly decreasing *)
   good cfg n /\
   (forall k, get n k = mv_get k (abs n)) /\
+  (forall h0 k i f, get_between h0 n k i f = mv_get_between k i f (abs n)) /\
   (forall k off desc limit, history n k off desc limit = mv_history k off desc limit (abs n)) /\
-  (forall prefix neq, get_with_prefix n prefix neq = Ok (mv_get_with_prefix prefix neq (abs n))) /\
-  (forall h0 k i f, between_ok n k i f -> get_between h0 n k i f = mv_get_between k i f (abs n)).
+  (forall prefix neq, get_with_prefix n prefix neq = Ok (mv_get_with_prefix prefix neq (abs n))).
 Proof.
   intros C H. pose proof (reachable_trees_good cfg ops n C H) as G.
   split; [exact G|]. destruct G as (R & T & Ts). repeat split.
   - intros k. eapply get_refines; eauto.
+  - intros. eapply get_between_refines; eauto.
   - intros. eapply history_refines; eauto.
   - intros. eapply get_with_prefix_refines; eauto.
-  - intros h0 k i f [B1 B2]. eapply get_between_partial; eauto.
 Qed.
 
 (* the separators of every inner node of a good tree *)
@@ -40,17 +33,17 @@ Proof.
   rewrite Forall_forall in W3. apply W3. apply in_or_app. right. simpl; auto.
 Qed.
 
-Theorem reader_refines_partial cfg ops n h0 s mode :
-  cfg_ok cfg -> in_state n (mrun cfg ops) -> mode_ok mode n ->
+Theorem reader_refines cfg ops n h0 s mode :
+  cfg_ok cfg -> in_state n (mrun cfg ops) ->
   read_all h0 n s mode = Ok (mv_walk s mode (abs n)).
 Proof.
-  intros C H M. destruct (reachable_trees_good cfg ops n C H) as (R & T & Ts).
+  intros C H. destruct (reachable_trees_good cfg ops n C H) as (R & T & Ts).
   eapply reader_refines_walk; eauto.
 Qed.
 
 (* an open snapshot: unchanged by every later operation, hence every query on it is constant
-   (GetBetween/ReadBetween additionally read block 0 of the history log, which never changes
-   once it exists) *)
+   (no query depends on block 0 of the history log any more: all refinement theorems hold for
+   every h0; its stability is kept as a fact about the log) *)
 Theorem snapshot_immutable_all cfg st ops id r :
   snap_find id st = Some r -> Forall (keeps_snapshot id) ops ->
   snap_find id (fold_left (mstep cfg) ops st) = Some r /\
@@ -84,12 +77,12 @@ Proof.
   destruct (Hok lv Hlv) as (_ & K1 & K2 & _). repeat split; auto. apply Hq; auto.
 Qed.
 
-Theorem reader_spec_partial cfg ops n h0 s s' mode :
-  cfg_ok cfg -> ops_bytes_ok ops -> in_state n (mrun cfg ops) -> mode_ok mode n ->
+Theorem reader_spec cfg ops n h0 s s' mode :
+  cfg_ok cfg -> ops_bytes_ok ops -> in_state n (mrun cfg ops) ->
   new_reader (c_maxkey cfg) s = Some s' ->
   read_all h0 n s' mode = Ok (mv_scan s mode (abs n)).
 Proof.
-  intros C Hb H M Hn. rewrite (reader_refines_partial cfg ops n h0 s' mode C H M). f_equal.
+  intros C Hb H Hn. rewrite (reader_refines cfg ops n h0 s' mode C H). f_equal.
   destruct (reachable_trees_good cfg ops n C H) as (_ & [Hs _] & _).
   apply (mv_walk_scan (c_maxkey cfg)); auto.
   - unfold mv_wf. rewrite abs_eq, keys_absl. exact Hs.
@@ -104,4 +97,16 @@ Example reader_spec_example :
 Proof.
   cbv zeta. split; [exact cfg_w_ok|]. split; [repeat constructor|]. split; [left; reflexivity|].
   vm_compute. reflexivity.
+Qed.
+
+(* a batch the map rejects: the tree keeps its content or goes back to the last flushed root; once
+   the tree was restarted (or flushed) that root is always defined, so the tree is never emptied *)
+Theorem rejected_batch_after_restart cfg st kvts :
+  cfg_ok cfg -> st_good cfg st -> s_last st <> None ->
+  spec_insert cfg (node_ts (s_root st)) kvts (abs (s_root st)) = Rejected ->
+  let st' := mstep cfg st (MInsert kvts) in
+  abs (s_root st') = abs (s_root st) \/ exists l, s_last st = Some l /\ abs (s_root st') = abs l.
+Proof.
+  intros C G HL HR. pose proof (mstep_content cfg st (MInsert kvts) C G) as P. cbv beta zeta iota in P.
+  rewrite HR in P. cbv zeta. destruct P as [P | [P | [P _]]]; auto. congruence.
 Qed.
